@@ -651,3 +651,282 @@ pub async fn chain_scenario(seed: u64, coll: u64) {
         ),
     }
 }
+
+// ------------------------------------------------------------------------------------------------ error cases (C14)
+// A mirror and a hand consumer of a subscription that lags (tiny event buffer, bursts of mutations), whose observed
+// collection is dropped before done, whose size limit is exceeded, or whose connection is cut.  Everything the mirror
+// shows is logged, as is every state of the observed collection: the mirror may only show states of that history,
+// in order, and must report an error whenever it stops following it.
+
+macro_rules! run_err {
+    ($seed:expr, $case:expr, $coll:expr, $obs:expr, $mutate:expr, $obs_json:expr, $mir_json:expr, $ev_json:expr) => {{
+        let seed: u64 = $seed;
+        let case: &str = $case;
+        let mut rng = Rng::new(seed ^ 0xE44);
+        let mut obs = $obs;
+        let (ca, cb) = (upper_cfg(&mut rng), upper_cfg(&mut rng));
+        let buffer = if case == "lag" { rng.range(1, 3) as usize } else { 256 };
+        let max_size = if case == "max_size" { rng.range(2, 4) as usize } else { 1000 };
+        let remote = case == "cut" || (case != "lag" && rng.chance(1, 3));
+        let incr = rng.chance(1, 2);
+        tr(json!({"ev": "reset", "seed": seed, "wl": "robs_err", "coll": $coll, "case": case, "buffer": buffer, "max_size": max_size, "remote": remote, "incr": incr}));
+        for i in 0..rng.below(3) {
+            $mutate(&mut obs, &mut rng, 200 + i as u8, case == "max_size");
+        }
+        tr(json!({"ev": "e_state", "i": 0, "obs": $obs_json(&obs)}));
+        let s_m = if incr { obs.subscribe_incremental(buffer) } else { obs.subscribe(buffer) };
+        let mut s_h = if incr { obs.subscribe_incremental(buffer) } else { obs.subscribe(buffer) };
+        let mut links = Vec::new();
+        let mut conn_keep = None;
+        let s_m = if remote {
+            let mut conn = rem_connect::<_, ()>(&ca, &cb, seed, 0).await;
+            let r = xfer(&mut conn.a_tx, &mut conn.b_rx, s_m).await;
+            links.extend(conn.links());
+            conn_keep = Some(conn);
+            match r {
+                Some(s) => s,
+                None => {
+                    tr(json!({"ev": "e_end", "pending": 0, "skipped": true}));
+                    return;
+                }
+            }
+        } else {
+            s_m
+        };
+        let initial = s_h.take_initial();
+        tr(json!({"ev": "e_sub", "has_initial": initial.is_some(), "initial": initial.as_ref().map(|c| $mir_json(c)).unwrap_or(json!([]))}));
+        let mirror = s_m.mirror(max_size);
+        let mut handles: Vec<tokio::task::JoinHandle<()>> = Vec::new();
+        // observer of the mirror
+        let mut r1 = Rng::new(seed * 3 + 1);
+        handles.push(spawn_d(if remote { 2 } else { 1 }, async move {
+            let mut mirror = mirror;
+            // 0: keep watching, 1: done, 2: failed
+            let mut state = 0;
+            while state == 0 {
+                yields(r1.below(12)).await;
+                state = match mirror.borrow_and_update().await {
+                    Ok(g) => {
+                        tr(json!({"ev": "e_mirror", "contents": $mir_json(&*g), "complete": g.is_complete(), "done": g.is_done()}));
+                        if g.is_done() { 1 } else { 0 }
+                    }
+                    Err(e) => {
+                        tr(json!({"ev": "e_mirror_err", "kind": format!("{e:?}").split('(').next().unwrap_or("").to_string()}));
+                        2
+                    }
+                };
+                if state == 0 {
+                    mirror.changed().await;
+                }
+            }
+            if state == 2 {
+                // the error is sticky, the last consistent contents stay retrievable
+                let again = mirror.borrow().await.is_err();
+                tr(json!({"ev": "e_mirror_again", "err": again}));
+            }
+            tr(json!({"ev": "e_detach", "contents": $mir_json(&mirror.detach().await)}));
+        }));
+        // hand consumer (slow)
+        let mut r2 = Rng::new(seed * 3 + 2);
+        handles.push(spawn_d(1, async move {
+            loop {
+                yields(r2.below(if case == "lag" { 30 } else { 6 })).await;
+                match s_h.recv().await {
+                    Ok(Some(e)) => tr(json!({"ev": "e_ev", "e": $ev_json(&e)})),
+                    Ok(None) => {
+                        tr(json!({"ev": "e_ev_end"}));
+                        return;
+                    }
+                    Err(e) => {
+                        tr(json!({"ev": "e_ev_err", "kind": format!("{e:?}").split('(').next().unwrap_or("").to_string()}));
+                        return;
+                    }
+                }
+            }
+        }));
+        let n = rng.range(6, 16);
+        for i in 1..=n {
+            $mutate(&mut obs, &mut rng, i as u8, case == "max_size");
+            tr(json!({"ev": "e_state", "i": i, "obs": $obs_json(&obs)}));
+            // bursts: in the lag case most mutations follow each other without giving the subscribers a turn
+            let gap = if case == "lag" { if rng.chance(1, 4) { rng.below(40) } else { 0 } } else { rng.below(8) };
+            yields(gap).await;
+            if case == "cut" && i == n / 2 {
+                if let Some(conn) = &conn_keep {
+                    tr(json!({"ev": "fault", "kind": "cut"}));
+                    for l in [&conn.ab, &conn.ba] {
+                        l.set(|st| {
+                            st.sink_err = true;
+                            st.stream_err = true;
+                        });
+                    }
+                }
+            }
+        }
+        if case == "drop" {
+            tr(json!({"ev": "e_drop"}));
+            drop(obs);
+        } else {
+            obs.done();
+            tr(json!({"ev": "e_done"}));
+            // the collection stays alive until the subscribers are through
+            handles.push(spawn_d(1, async move {
+                yields(3000).await;
+                drop(obs);
+            }));
+        }
+        let left = wait_tasks(&mut handles, &links, 4000).await;
+        tr(json!({"ev": "e_end", "pending": left}));
+        for h in handles {
+            h.abort();
+        }
+        if let Some(conn) = conn_keep {
+            conn.pump.abort();
+            for c in conn.conn {
+                c.abort();
+            }
+        }
+        settle().await;
+    }};
+}
+
+pub async fn err_scenario(seed: u64, coll: u64, case: u64) {
+    let coll = ["vec", "deque", "map", "set"][(if coll >= 4 { seed % 4 } else { coll }) as usize];
+    let case = ["lag", "drop", "max_size", "cut", "plain"][(if case >= 5 { (seed / 4) % 5 } else { case }) as usize];
+    install_spawn_policy(seed, 1, 3);
+    match coll {
+        "vec" => run_err!(
+            seed,
+            case,
+            coll,
+            ObservableVec::<u8>::new(),
+            |o: &mut ObservableVec<u8>, r: &mut Rng, v: u8, grow: bool| match r.below(if grow { 2 } else { 6 }) {
+                2 if !o.is_empty() => {
+                    o.pop();
+                }
+                3 if !o.is_empty() => {
+                    o.remove(0);
+                }
+                4 => o.insert(0, v),
+                _ => o.push(v),
+            },
+            |o: &ObservableVec<u8>| json!(o.iter().copied().collect::<Vec<u8>>()),
+            |c: &Vec<u8>| json!(c),
+            vec_event
+        ),
+        "deque" => run_err!(
+            seed,
+            case,
+            coll,
+            ObservableVecDeque::<u8>::new(),
+            |o: &mut ObservableVecDeque<u8>, r: &mut Rng, v: u8, grow: bool| match r.below(if grow { 2 } else { 6 }) {
+                2 if !o.is_empty() => {
+                    o.pop_front();
+                }
+                3 if !o.is_empty() => {
+                    o.pop_back();
+                }
+                4 => o.push_front(v),
+                _ => o.push_back(v),
+            },
+            |o: &ObservableVecDeque<u8>| json!(o.iter().copied().collect::<Vec<u8>>()),
+            |c: &std::collections::VecDeque<u8>| json!(c.iter().copied().collect::<Vec<u8>>()),
+            deque_event
+        ),
+        "map" => run_err!(
+            seed,
+            case,
+            coll,
+            ObservableHashMap::<u8, u8>::new(),
+            |o: &mut ObservableHashMap<u8, u8>, r: &mut Rng, v: u8, grow: bool| match r.below(if grow { 1 } else { 4 }) {
+                1 => {
+                    o.remove(&(r.below(6) as u8));
+                }
+                _ => {
+                    o.insert(if grow { v } else { r.below(6) as u8 }, v);
+                }
+            },
+            |o: &ObservableHashMap<u8, u8>| map_json(o.iter()),
+            |c: &std::collections::HashMap<u8, u8>| map_json(c.iter()),
+            map_event
+        ),
+        _ => run_err!(
+            seed,
+            case,
+            coll,
+            ObservableHashSet::<Keyed>::new(),
+            |o: &mut ObservableHashSet<Keyed>, r: &mut Rng, v: u8, grow: bool| match r.below(if grow { 1 } else { 4 }) {
+                1 => {
+                    o.remove(&Keyed { k: r.below(6) as u8, p: 0 });
+                }
+                _ => {
+                    o.replace(Keyed { k: if grow { v } else { r.below(6) as u8 }, p: v });
+                }
+            },
+            |o: &ObservableHashSet<Keyed>| set_json(o.iter()),
+            |c: &std::collections::HashSet<Keyed>| set_json(c.iter()),
+            set_event
+        ),
+    }
+}
+
+/// Append-only list: subscribers joining at any time and consuming at any pace get every element exactly once, in
+/// order, and never lag.
+pub async fn list_scenario(seed: u64) {
+    let mut rng = Rng::new(seed ^ 0x1157);
+    tr(json!({"ev": "reset", "seed": seed, "wl": "robs_list", "coll": "list", "case": "list"}));
+    install_spawn_policy(seed, 1, 3);
+    let mut obs = ObservableList::<u32>::new();
+    let n = rng.range(5, 40) as u32;
+    let mut handles: Vec<tokio::task::JoinHandle<()>> = Vec::new();
+    let mut next_sub = 1u64;
+    let ending = rng.below(3); // 0 done, 1 dropped without done, 2 done
+    for v in 1..=n {
+        if next_sub <= 4 && rng.chance(1, 6) {
+            let mut sub = obs.subscribe();
+            let id = next_sub;
+            next_sub += 1;
+            let mut r = Rng::new(seed * 9 + id);
+            let slow = r.chance(1, 2);
+            tr(json!({"ev": "l_sub", "sub": id, "after": v - 1}));
+            handles.push(spawn_d(1, async move {
+                loop {
+                    yields(r.below(if slow { 60 } else { 4 })).await;
+                    match sub.recv().await {
+                        Ok(Some(ListEvent::Push(x))) => tr(json!({"ev": "l_recv", "sub": id, "v": x})),
+                        Ok(Some(ListEvent::Done)) => tr(json!({"ev": "l_recv_done", "sub": id})),
+                        Ok(Some(_)) => {}
+                        Ok(None) => {
+                            tr(json!({"ev": "l_end", "sub": id, "how": "none"}));
+                            return;
+                        }
+                        Err(e) => {
+                            tr(json!({"ev": "l_end", "sub": id, "how": format!("{e:?}").split('(').next().unwrap_or("").to_string()}));
+                            return;
+                        }
+                    }
+                }
+            }));
+        }
+        obs.push(v);
+        tr(json!({"ev": "l_push", "v": v}));
+        yields(if rng.chance(1, 3) { rng.below(10) } else { 0 }).await;
+    }
+    if ending == 1 {
+        tr(json!({"ev": "l_drop"}));
+        drop(obs);
+    } else {
+        obs.done();
+        tr(json!({"ev": "l_done", "n": n}));
+        handles.push(spawn_d(1, async move {
+            yields(6000).await;
+            drop(obs);
+        }));
+    }
+    let left = wait_tasks(&mut handles, &[], 4000).await;
+    tr(json!({"ev": "l_fin", "pending": left}));
+    for h in handles {
+        h.abort();
+    }
+    settle().await;
+}
